@@ -3,14 +3,16 @@
    (the code fixes n = 256); premises: differences of distinct nodes invertible
    (nodes_ok), t - node invertible (off_domain), naturals embed additively.  For the
    concrete scalar field and n = 256 the node premises are discharged (last theorem).
-   PARTIAL: the link to COEFFICIENT form (<f, b(z)> = p(z) for the interpolating p given by
-   coefficients, and the value of the quotient at k as a coefficient-form quotient) is
-   not proved; it is decided by correspondence against the model's coefficient-form
-   arithmetic.  What is proved characterises the results intrinsically:
-   sum_i b_i(t) = 1, and <DivideOnDomain k f, b(t)> = (<f,b(t)> - f_k)/(t - k). *)
+   Link to COEFFICIENT form: C18_barycentric_is_polynomial_evaluation - for every polynomial
+   q with at most n coefficients, <evaluations of q, ComputeBarycentricCoefficients(t)> = q(t)
+   (generalised partial fractions sum_i q(x_i)/(A'(x_i)(t-x_i)) = q(t)/A(t), by induction on
+   the domain size with synthetic division).  With C18_quotient_evaluation this gives the
+   quotient in coefficient form as well: <DivideOnDomain k f, b(t)> = (q(t) - q(x_k))/(t - x_k).
+   PARTIAL: the value of the quotient AT the node k itself (the q_k entry) is characterised
+   through the evaluation identity only. *)
 From Coq Require Import ZArith List Arith.
 From GoIpa Require Import Model.Zq Model.Alg Model.Bary Model.Banderwagon Model.FpSqrt
-  Proofs.AlgLaws Proofs.BaryProofs.
+  Proofs.AlgLaws Proofs.BaryProofs Proofs.BaryPoly.
 Import ListNotations.
 
 Section C18.
@@ -77,7 +79,21 @@ Section C18.
     = fmul fo (fsub fo (inner fo f (map (bcoef fo n t) (seq 0 n))) (nth k f (f0 fo)))
               (inv (fsub fo t (dom k))).
   Proof. exact (quotient_eval_identity fo FL dom_add). Qed.
+
+  (* generalised partial fractions and the coefficient-form link *)
+  Theorem C18_partial_fractions_poly : forall n q t, (length q <= n)%nat -> nodes_ok fo n -> off_domain fo n t ->
+    fsum fo (map (fun i => fmul fo (peval fo q (dom i)) (inv (fmul fo (bary_weight fo n i) (fsub fo t (dom i))))) (seq 0 n))
+    = fmul fo (peval fo q t) (inv (Apoly fo n t)).
+  Proof. exact (partial_fractions_poly fo FL). Qed.
+
+  Theorem C18_barycentric_is_polynomial_evaluation : forall n q t,
+    (length q <= n)%nat -> nodes_ok fo n -> off_domain fo n t ->
+    inner fo (map (fun i => peval fo q (dom i)) (seq 0 n))
+             (bary_coeffs fo n (batch_invert fo) (new_weights fo n) t) = peval fo q t.
+  Proof. exact (inner_bary_coeffs_poly fo FL). Qed.
 End C18.
+Print Assumptions C18_partial_fractions_poly.
+Print Assumptions C18_barycentric_is_polynomial_evaluation.
 Print Assumptions C18_weight_tables.
 Print Assumptions C18_weight_products.
 Print Assumptions C18_barycentric_coefficients.
